@@ -21,17 +21,17 @@ HOSTILE = "ACGahH#bx- 4♯"    # symbols malformed strings are built from
 
 def shards(tier, seed):
     out = []
-    k = 8 if tier == "quick" else 14
-    firsts = [""] if tier == "quick" else ["#", "b"]
+    k = 10 if tier == "quick" else 15
+    firsts = ["#", "b"]
     for L in T.LETTERS:
         for f in firsts:
             out.append({"name": "names-%s%s" % (L, f), "kind": "names", "letter": L, "first": f, "k": k,
                         "weight": 10})
     out.append({"name": "hostile", "kind": "hostile", "maxlen": 3 if tier == "quick" else 4,
-                "random": 2000 if tier == "quick" else 20000, "weight": 5})
+                "random": 6000 if tier == "quick" else 40000, "weight": 5})
     out.append({"name": "integers", "kind": "ints", "weight": 1})
     out.append({"name": "enharmonic-pairs", "kind": "pairs", "k": 3 if tier == "quick" else 5, "weight": 6})
-    out.append({"name": "long-accidentals", "kind": "long", "n": 60 if tier == "quick" else 600, "weight": 3})
+    out.append({"name": "long-accidentals", "kind": "long", "n": 200 if tier == "quick" else 1500, "weight": 3})
     if tier == "thorough":
         out.append({"name": "repo-tests-under-monitors", "kind": "repotests", "mode": "record",
                     "tests": ["tests/unit/core"], "weight": 4})
